@@ -129,10 +129,22 @@ structure Quirks where
   nameFix : Bool
   /-- an explicit id equal to `StreamId::max()` is not `>` (pinned tree: it is the internal marker of `>`) -/
   maxIdFix : Bool
+  /-- XCLAIM FORCE as in Redis: the idle test applies to every pending entry with or without FORCE, and FORCE creates
+      the missing pending row of an id that exists in the stream (pinned tree: FORCE switches the idle test off and
+      creates nothing) -/
+  forceFix : Bool
+  /-- XREADGROUP COUNT 0 is "no limit" (pinned tree: it delivers nothing) -/
+  countZeroFix : Bool
+  /-- XGROUP CREATE parses the start id before it creates the stream (pinned tree: a refused
+      `CREATE key g <bad id> MKSTREAM` leaves the new key behind) -/
+  createParseFix : Bool
+  /-- the extended XPENDING parses its bounds (`-`/`+` in either position, incomplete ids, `(`; anything else an
+      error); pinned tree: every bound it cannot parse is "unbounded" -/
+  boundFix : Bool
 deriving DecidableEq, Repr
 
-def Quirks.pinned : Quirks := ⟨false, false, false, false, false, false, false, false, false⟩
-def Quirks.fixed : Quirks := ⟨true, true, true, true, true, true, true, true, true⟩
+def Quirks.pinned : Quirks := ⟨false, false, false, false, false, false, false, false, false, false, false, false, false⟩
+def Quirks.fixed : Quirks := ⟨true, true, true, true, true, true, true, true, true, true, true, true, true⟩
 
 inductive Reply
   | ok | busy | nogroup | err | panic | refused
@@ -258,6 +270,11 @@ def claimLoop (c : Name) (elig : Bool) : Group → List Id → Group × List Id
 def claim (g : Group) (c : Name) (elig : Bool) (ids : List Id) : Group × List Id :=
   claimLoop c elig (createConsumer g c) ids
 
+/-- one new pending row with its share of the counters: what XCLAIM FORCE creates for an id that is pending for nobody
+    (`add_entry`, `pending_count += 1`, `total_pending += 1`) — also the unit step of a delivery -/
+def addOne (c : Name) (g : Group) (id : Id) : Group :=
+  { addEntry c g id with consumers := consAdjust c (· + 1) g.consumers, totalPending := g.totalPending + 1 }
+
 /-! #### the idle test of XCLAIM made explicit
 
 `PendingEntry::last_delivery` (set by every delivery and by every successful claim) is kept beside the group as a
@@ -272,16 +289,30 @@ def setLast (ts : Times) (id : Id) (t : Nat) : Times := (id, t) :: ts.filter (fu
 
 def idleOk (now last minIdle : Nat) (force : Bool) : Bool := force || decide (minIdle ≤ now - last)
 
-def claimLoopT (c : Name) (now minIdle : Nat) (force : Bool) : Group × Times → List Id → (Group × Times) × List Id
+/-- one iteration of the loop of `claim_messages` with the real idle test.  A pending id changes hands iff the idle
+    test passes — FORCE replaces the test only on the pinned tree; an id that is pending for nobody is, on the repaired
+    tree and with FORCE, given a new row if the entry exists in the stream. -/
+def claimStepT (q : Quirks) (c : Name) (now minIdle : Nat) (force : Bool) (stream : List Id) (s : Group × Times)
+    (id : Id) : (Group × Times) × Bool :=
+  match pelFind id s.1.byId with
+  | some _ =>
+    let r := claimOne c (idleOk now (lastOf s.2 id) minIdle (force && !q.forceFix)) s.1 id
+    ((r.1, if r.2 then setLast s.2 id now else s.2), r.2)
+  | none =>
+    if q.forceFix && force && stream.contains id then ((addOne c s.1 id, setLast s.2 id now), true) else (s, false)
+
+def claimLoopT (q : Quirks) (c : Name) (now minIdle : Nat) (force : Bool) (stream : List Id) :
+    Group × Times → List Id → (Group × Times) × List Id
   | s, [] => (s, [])
   | s, id :: ids =>
-    let r := claimOne c (idleOk now (lastOf s.2 id) minIdle force) s.1 id
-    let rest := claimLoopT c now minIdle force (r.1, if r.2 then setLast s.2 id now else s.2) ids
+    let r := claimStepT q c now minIdle force stream s id
+    let rest := claimLoopT q c now minIdle force stream r.1 ids
     (rest.1, if r.2 then id :: rest.2 else rest.2)
 
-/-- `ConsumerGroup::claim_messages` with the real idle test -/
-def claimT (s : Group × Times) (c : Name) (now minIdle : Nat) (force : Bool) (ids : List Id) : (Group × Times) × List Id :=
-  claimLoopT c now minIdle force (createConsumer s.1 c, s.2) ids
+/-- `Stream::claim_messages` / `ConsumerGroup::claim_messages` with the real idle test -/
+def claimT (q : Quirks) (stream : List Id) (s : Group × Times) (c : Name) (now minIdle : Nat) (force : Bool)
+    (ids : List Id) : (Group × Times) × List Id :=
+  claimLoopT q c now minIdle force stream (createConsumer s.1 c, s.2) ids
 
 /-- a delivery (`add_pending`) stamps every delivered id with `now` -/
 def stamp (ts : Times) (ids : List Id) (now : Nat) : Times := ids.foldl (fun ts id => setLast ts id now) ts
@@ -387,6 +418,51 @@ def lossyName (n : Name) : Name := if n = 100 ∨ n = 101 then 199 else n
 
 def isBinaryName (n : Name) : Bool := n = 100 || n = 101
 
+/-- how `handle_xreadgroup` hands COUNT to `read_group`: 0 is "no limit" for the repaired handler -/
+def countFrom (q : Quirks) (n : Nat) : Option Nat := if q.countZeroFix && n = 0 then none else some n
+
+/-- a bound of the extended XPENDING as the client writes it -/
+inductive Bound
+  | minus | plus
+  | full (id : Id)
+  /-- an incomplete id: milliseconds only -/
+  | ms (n : Nat)
+  /-- anything that is not a bound (`junk`, `7-`) -/
+  | junk
+deriving DecidableEq, Repr
+
+def u64Max : Nat := 18446744073709551615
+
+/-- the next / previous id in 64-bit arithmetic (`none`: there is none) -/
+def idSucc (i : Id) : Option Id :=
+  if i.2 < u64Max then some (i.1, i.2 + 1) else if i.1 < u64Max then some (i.1 + 1, 0) else none
+def idPred (i : Id) : Option Id :=
+  if 0 < i.2 then some (i.1, i.2 - 1) else if 0 < i.1 then some (i.1 - 1, u64Max) else none
+
+/-- what the property prescribes for a bound (Redis): `-`/`+` are the smallest / greatest id in either position, an
+    incomplete id is completed (`n-0` as a start, `n-MAX` as an end), `(` makes it exclusive; `none` = an error -/
+def boundSpec (isStart : Bool) (excl : Bool) : Bound → Option Id
+  | .junk => none
+  | b =>
+    let id : Id := match b with
+      | .minus => (0, 0)
+      | .plus => maxId
+      | .full i => i
+      | .ms n => (n, if isStart then 0 else u64Max)
+      | .junk => (0, 0)
+    if excl then (if isStart then idSucc id else idPred id) else some id
+
+/-- what `handle_xpending` makes of a bound: `some none` = unbounded.  The pinned handler knows `-` as a start, `+` as
+    an end and complete ids; everything else is silently "unbounded".  The repaired one is `boundSpec`. -/
+def boundCode (q : Quirks) (isStart : Bool) (excl : Bool) (b : Bound) : Option (Option Id) :=
+  if q.boundFix then (boundSpec isStart excl b).map some
+  else match excl, b with
+    | false, .full i => some (some i)
+    | _, _ => some none
+
+/-- `XGROUP CREATE key g <invalid id> MKSTREAM` on a key that does not exist: refused; does the key exist afterwards? -/
+def refusedCreateLeavesKey (q : Quirks) (keyExisted : Bool) : Bool := keyExisted || !q.createParseFix
+
 /-- One operation on an existing group, given the ids currently in the stream. -/
 def gstep (q : Quirks) (stream : List Id) (g : Group) : GOp → Group × Reply
   | .setid id => (setId g id, .ok)
@@ -451,6 +527,19 @@ def claim (g : Group) (c : Name) (elig : Bool) (ids : List Id) : Group × List I
     ({ g with pending := g.pending.map (fun x => if ids.contains x.1 then (x.1, c) else x) },
      ids.filter (fun i => (owner g.pending i).isSome))
   else (g, [])
+
+/-- XCLAIM per id, as prescribed: a pending id changes owner iff it meets the idle threshold (FORCE does not replace the
+    threshold); an id that is pending for nobody becomes pending for the claimer iff FORCE is given and the entry
+    exists in the stream.  `idleMet` is the (here uniform) outcome of the idle test. -/
+def claimStepF (stream : List Id) (c : Name) (idleMet force : Bool) (s : List (Id × Name) × List Id) (id : Id) :
+    List (Id × Name) × List Id :=
+  match owner s.1 id with
+  | some _ => if idleMet then (assign c s.1 id, s.2 ++ [id]) else s
+  | none => if force && stream.contains id then (assign c s.1 id, s.2 ++ [id]) else s
+
+def claimF (stream : List Id) (g : Group) (c : Name) (idleMet force : Bool) (ids : List Id) : Group × List Id :=
+  let r := ids.foldl (claimStepF stream c idleMet force) (g.pending, [])
+  ({ g with pending := r.1 }, r.2)
 
 def delConsumer (g : Group) (c : Name) : Group × Nat :=
   ({ g with pending := g.pending.filter (fun x => x.2 != c) }, (g.pending.filter (fun x => x.2 == c)).length)
@@ -534,13 +623,15 @@ structure St where
   stream : List Id
   lastId : Id
   groups : List (Name × Group)
+  /-- the key exists in the keyspace (created by the first XADD or by XGROUP CREATE … MKSTREAM) -/
+  keyExists : Bool := false
 deriving Repr
 
-def St.empty : St := ⟨[], (0, 0), []⟩
+def St.empty : St := ⟨[], (0, 0), [], false⟩
 
 /-- `StreamData::add_with_id` (ids only) -/
 def St.add (s : St) (id : Id) : St × Reply :=
-  if idLe id s.lastId then (s, .err) else ({ s with stream := s.stream ++ [id], lastId := id }, .ok)
+  if idLe id s.lastId then (s, .err) else ({ s with stream := s.stream ++ [id], lastId := id, keyExists := true }, .ok)
 
 /-- `Stream::delete` -/
 def St.del (s : St) (ids : List Id) : St × Reply :=
@@ -553,7 +644,7 @@ def St.dollar (s : St) : Id := s.stream.getLast?.getD (0, 0)
 def St.create (q : Quirks) (s : St) (g : Name) (start : Id) : St × Reply :=
   match alGet g s.groups with
   | some _ => (s, .busy)
-  | none => ({ s with groups := alSet g (Code.newGroup q start) s.groups }, .ok)
+  | none => ({ s with groups := alSet g (Code.newGroup q start) s.groups, keyExists := true }, .ok)
 
 def St.destroy (s : St) (g : Name) : St × Reply :=
   match alGet g s.groups with
